@@ -389,7 +389,7 @@ func Run(tier string, seed uint64, modelPath, repo string, out *res.Result) erro
 		return err
 	}
 	// the minimal inputs of the findings that were deliberately not repaired (re-observed every run)
-	for _, css := range []string{"u/**/+/**/a", "U/**/+/**/?", "</**/!/**/--x", "--/**/>", " /**/ "} {
+	for _, css := range []string{"u/**/+/**/a", "u/**/+/**/ab(x)", "U/**/+/**/?", "</**/!/**/--x", "--/**/>", " /**/ "} {
 		if err := rn.one(css, true, "unrepaired", 0); err != nil {
 			return err
 		}
